@@ -353,3 +353,31 @@ Definition request_ok (r : request) : bool :=
   span_ok (rq_span r) (rq_box r) && (rq_ngrids r =? rq_nfracs r)%nat.
 
 Definition conform_req (d : mdgdata) (r : request) : bool := conform d && request_ok r.
+
+(* ------------------------------------------------------------------ fracture extents
+   (third round, additive): every fracture grid spans, on every axis, exactly the extent of
+   the fracture it discretises — for structured grids the fracture SNAPPED to the nearest
+   grid planes, computed exactly by the harness from the requested decimal coordinates. *)
+Definition extents_ok (ext : list (list (Q * Q) * list (Q * Q))) : bool :=
+  forallb (fun e => span_ok (fst e) (snd e)) ext.
+
+Definition conform_req2 (d : mdgdata) (r : request) (ext : list (list (Q * Q) * list (Q * Q))) : bool :=
+  conform_req d r && extents_ok ext.
+
+(* ------------------------------------------------------------------ reduced sums
+   (additive): the same certificate with sums that are normalised after every addition —
+   unreduced sums of n binary64 values carry denominators of ~52 n bits, which made grids
+   with thousands of cells slow.  Equivalence with [conform_req2] is proved in Proofs/C25.v. *)
+Definition qsum_r (l : list Q) : Q := fold_right (fun x acc => Qred (x + acc)) 0 l.
+
+Definition conform_f (d : mdgdata) : bool :=
+  forallb iface_ok (md_ifaces d) &&
+  forallb (fun h => tags_ok (fst h) (snd h)) (md_hosts d) &&
+  qnear (qsum_r (md_vols d)) (md_domain d).
+
+Definition request_ok_f (r : request) : bool :=
+  forallb (fun m => qnear (qsum_r (fst m)) (snd m)) (rq_meas r) &&
+  span_ok (rq_span r) (rq_box r) && (rq_ngrids r =? rq_nfracs r)%nat.
+
+Definition conform_req3 (d : mdgdata) (r : request) (ext : list (list (Q * Q) * list (Q * Q))) : bool :=
+  conform_f d && request_ok_f r && extents_ok ext.
